@@ -546,10 +546,12 @@ p_uthread_sleep (puint32 msec)
 							   0,
 							   &time_req,
 							   &time_rem)) != 0)) {
+			/* clock_nanosleep() returns an error number, errno is not set */
+			if (result == EINTR)
 #  else
 		if (P_UNLIKELY ((result = nanosleep (&time_req, &time_rem)) != 0)) {
-#  endif
 			if (p_error_get_last_system () == EINTR)
+#  endif
 				time_req = time_rem;
 			else
 				return -1;
